@@ -4,7 +4,7 @@
    (Model/Lifecycle.v).  Allocator behaviour, uninitialised padding and undefined behaviour inside
    libstdc++ / libm are observed by the sanitizers on the sampled scripts only (partial). *)
 From Coq Require Import ZArith QArith Qcanon List Lia.
-From Verif Require Import Num NumFacts Grid GridFacts Sampling SamplingFacts Lifecycle LifecycleFacts Safety SafetyFacts.
+From Verif Require Import Num NumFacts Grid GridFacts Sampling SamplingFacts Lifecycle LifecycleFacts Safety SafetyFacts Engine GraphLayout.
 Open Scope Qc_scope.
 
 (* the time-point sampling loop never reads outside t_samples - empty list, all requests consumed, any clock value - and
@@ -42,6 +42,34 @@ Print Assumptions C11_neighbour_entries.
 Theorem C11_poisson_precondition : forall lambda, poisson_enters_library lambda = true -> poisson_precondition lambda = true.
 Proof. exact poisson_library_precondition. Qed.
 Print Assumptions C11_poisson_precondition.
+
+(* graph engines: every slot built by SetNeighbors names a node of the graph (edges with both ends inside), a node has as many
+   slots as edge ends (mesh_neighbor_n), the species-major tables mesh_kd_out[i] / mesh_kd_in[i] have n_species x n_slots entries,
+   entry s * n_slots + n is inside and is the entry of that very (species, slot), and GillespieGraph's flat channel index decodes
+   back to the pair it was built from (the cell-first decode does not) *)
+Theorem C11_graph_slots_in_range : forall (edges : list gedge) n i j sf ds,
+  (forall e, In e edges -> let '(a, b, _, _) := e in (a < n)%nat /\ (b < n)%nat) ->
+  In (j, sf, ds) (slots_of edges i) -> (i < n)%nat /\ (j < n)%nat.
+Proof. exact slots_in_range. Qed.
+Print Assumptions C11_graph_slots_in_range.
+
+Theorem C11_graph_slot_count : forall edges i, length (slots_of edges i) = edge_ends edges i.
+Proof. exact slots_count. Qed.
+Print Assumptions C11_graph_slot_count.
+
+Theorem C11_graph_table_layout : forall f nS sl s n d, (s < nS)%nat -> (n < length sl)%nat ->
+  length (slot_table f nS sl) = (nS * length sl)%nat /\ (s * length sl + n < nS * length sl)%nat /\
+  nth (s * length sl + n) (slot_table f nS sl) 0 = f s (nth n sl d).
+Proof.
+  intros f nS sl s n d Hs Hn. split; [apply slot_table_length|]. split; [apply slot_index_in_range; assumption|].
+  apply slot_table_nth; assumption.
+Qed.
+Print Assumptions C11_graph_table_layout.
+
+Theorem C11_graph_channel_decode : forall nn s n, (n < nn)%nat ->
+  ((s * nn + n) / nn = s /\ (s * nn + n) mod nn = n)%nat.
+Proof. exact channel_decode. Qed.
+Print Assumptions C11_graph_channel_decode.
 
 Example C11_example : tsample_loop 4 [0; 1; 1] 0 1 = Safe (true, 3%nat) /\ tsample_loop 1 [] 0 0 = Safe (false, 0%nat).
 Proof. vm_compute. split; reflexivity. Qed.
